@@ -46,7 +46,7 @@ COMPONENTS = {
 ASSUMPTIONS = ['two threads never import the same module (import-system module locks stay real and are avoided, not modelled)',
                'torn or bit-flipped pyc contents and same-mtime-same-size edits are not injected (CPython itself does not survive them)',
                'concurrency between *processes* on one cache directory is not simulated']
-PROBES = ['no_write_runs', 'reconf_between_runs', 'edits', 'crashes', 'threaded_runs', 'preempted_runs', 'cache_hits', 'hooked_and_unhooked_concurrently', 'failed_imports',
+PROBES = ['second_scope_reimports', 'no_write_runs', 'reconf_between_runs', 'edits', 'crashes', 'threaded_runs', 'preempted_runs', 'cache_hits', 'hooked_and_unhooked_concurrently', 'failed_imports',
           'pyc_files_checked', 'scoped_runs', 'reexec_after_hook_off']
 
 PKG = 'c16pkg'
@@ -224,6 +224,11 @@ def generate(rng, run, tier):
             k = rng.randint(1, nmods)
             run_spec['scoped'] = {'k': k, 'reexec': sorted(rng.sample(range(nmods), rng.randint(0, min(2, nmods)))),
                                   'drop_cache': rng.random() < 0.7}
+            if rng.random() < 0.4:
+                # a second beartyping() block of the same interpreter run, under another configuration, re-importing some of
+                # the modules (evicted from sys.modules first): each must then follow the second configuration
+                run_spec['scoped']['second'] = {'hook': rng.choice([c for c in CONFS if c != hook]),
+                                                'mods': sorted(rng.sample(range(nmods), rng.randint(1, nmods)))}
         runs.append(run_spec)
     avoid_race = False          # (was an avoid switch for C16-cache-from-source-race, repaired since)
     if avoid_race:
@@ -448,6 +453,19 @@ def _scoped_run(root, mods, rs, scoped, obs):
                 loaded[name + ':reexec'] = m2
             except Exception as e:      # noqa
                 obs['mods'][name + ':reexec'] = {'import_error': type(e).__name__ + ':' + str(e)[:80]}
+    sec = scoped.get('second')
+    if sec:
+        with claw.beartyping(conf=ops.build_conf(CONFS[sec['hook']])):
+            for i in sec['mods']:
+                if i >= len(mods) or mods[i]['name'] not in loaded:
+                    continue
+                m = mods[i]
+                full = '%s.%s.%s' % (PKG, m['sub'], m['name'])
+                sys.modules.pop(full, None)
+                try:
+                    loaded[m['name'] + ':scope2'] = importlib.import_module(full)
+                except Exception as e:      # noqa
+                    obs['mods'][m['name'] + ':scope2'] = {'import_error': type(e).__name__ + ':' + str(e)[:80]}
     for name, mod in loaded.items():
         obs['mods'][name] = fingerprint(mod)
     obs['steps'] = obs['digest'] = obs['preempt'] = 0
@@ -559,6 +577,29 @@ def _execute(case, runner):
                                 ri, rs['hook'], [r['hook'] for r in case['runs'][:ri]], name, fp, want),
                             _why(case, ri, name, fp, want, obs))
                     break
+            if viol:
+                break
+            sec = (rs.get('scoped') or {}).get('second') if rs['hook'] != 'off' else None
+            if sec and any(n.endswith(':scope2') for n in obs.get('mods', {})):
+                # what a module re-imported inside the second block does must be what it does in an interpreter run of its own
+                # whose only block has the second configuration (the same-procedure twin above shares in-process state with the
+                # run it mirrors and cannot tell)
+                probes['second_scope_reimports'] += 1
+                ref2 = os.path.join(scratch, 'ref2')
+                _copy_sources(root, ref2)
+                rs2 = {'hook': sec['hook'], 'edits': [], 'threads': None, 'crash_at': None, 'sched_seed': 0, 'p': 0.0,
+                       'import_order': rs.get('import_order'), 'scoped': {'k': len(mods), 'reexec': [], 'drop_cache': False}}
+                ref2_obs = runner(_run_in_tree, (ref2, mods, rs2, False))
+                shutil.rmtree(ref2, ignore_errors=True)
+                for name, fp in sorted(obs['mods'].items()):
+                    if not name.endswith(':scope2') or (isinstance(fp, dict) and 'import_error' in fp):
+                        continue
+                    want = ref2_obs.get('mods', {}).get(name[:-len(':scope2')])
+                    if want is not None and fp != want:
+                        viol = ('second_scope_follows_first', 'run %d: module %s re-imported inside a second beartyping() block (hook=%s) after a '
+                                'first block (hook=%s) behaves %r; imported under that configuration in a run of its own: %r' % (
+                                    ri, name, sec['hook'], rs['hook'], fp, want), 'scope2')
+                        break
             if viol:
                 break
             # (2) marker invariant
